@@ -1,11 +1,41 @@
 (* C08 - Notes written to note data read back identically, in canonical form.
-   Statements only (proofs: Proofs/C08.v). These carry the arithmetic of the encoder; that the
-   encoder's text parses back to the grid it describes is checked by the correspondence
-   (decode(encode ns) = ns on every generated stream), see DESIGN.md. *)
+   Statements only (proofs: Proofs/C08.v arithmetic, Proofs/NotesGrid.v the encoder, Proofs/NotesText.v the
+   lexical layer).  C08_roundtrip is the property's first sentence for every stream and column count;
+   the arithmetic theorems below it say why the canonical measure has exactly 4 x lcm rows. *)
 From Coq Require Import List ZArith NArith Bool.
-From SV Require Import Sx Str Notes Proofs.C08.
+From SV Require Import Sx Str Notes Proofs.C07 Proofs.C08 Proofs.NotesText Proofs.NotesGrid.
+From Coq Require Import Sorting.Sorted.
 Import ListNotations.
 Open Scope Z_scope.
+
+(* decode (encode ns) = ns: for every stream sorted strictly by (player, beat, column) whose note types are
+   note characters, and every positive column count for which the encoder succeeds, the text decodes to the
+   requested column count and to the same notes - same beat (as a rational), column, type, player, keysound *)
+Theorem C08_roundtrip : forall cols ns text, (0 < cols)%nat ->
+  StronglySorted (fun a b => pos_cmp a b = Lt) ns ->
+  (forall n, In n ns -> is_note_char (ntype n) = true) ->
+  encode cols ns = Some text ->
+  exists ns', decode text = Some (cols, ns') /\ Forall2 note_eqv ns' ns.
+Proof. exact encode_decode. Qed.
+Print Assumptions C08_roundtrip.
+
+(* the text is the canonical rendering of a grid of cells: every player up to the last one, every measure up
+   to a player's last note (skipped ones blank: four rows of zeros), each measure's rows built by rows_c *)
+Theorem C08_text_is_a_grid : forall cols ns,
+  encode cols ns =
+  if negb (beats_ok ns) then None else
+  match ns with
+  | [] => Some (grid_text [[blank_m cols]])
+  | _ => match players_c cols (-1) (group_by nplayer ns) with Some g => Some (grid_text g) | None => None end
+  end.
+Proof. exact encode_text. Qed.
+Print Assumptions C08_text_is_a_grid.
+
+(* a measure holding the notes ms is written with exactly 4 x lcm(denominators) rows *)
+Theorem C08_rows_per_measure : forall cols p m ms x, measure_c cols ms = Some x -> meas_ok p m ms ->
+  Z.of_nat (length x) = 4 * lcm_den ms.
+Proof. intros cols p m ms x H Hok. exact (proj1 (measure_c_sem cols p m ms x H Hok)). Qed.
+Print Assumptions C08_rows_per_measure.
 
 (* rows per beat of a measure = the least common denominator of its notes' beats: every
    denominator divides it and it divides every other common multiple *)
